@@ -55,7 +55,7 @@ _UN = {'Neg': 'DNeg', 'FloatFn': 'DFloatFn', 'Floor': 'DFloor', 'View': 'DView',
        'AsArray': 'DAsArray', 'Elem': 'DElem', 'Like': 'DLike', 'Arange': 'DArange', 'Item': 'DItem', 'ToInt': 'DToInt',
        'Concat': 'DConcat', 'IsNone': 'DIsNone', 'IsNp': 'DIsNp', 'Not': 'DNot'}
 _BIN = {'Bin': 'DBin', 'Pow': 'DPow', 'Div': 'DDiv', 'FloorDiv': 'DFloorDiv', 'Cmp': 'DCmp', 'Matmul': 'DMatmul',
-        'Tensordot': 'DTensordot', 'Astype': 'DAstype', 'Inplace': 'DInplace', 'Aug': 'DAug', 'Setitem': 'DSetitem',
+        'Tensordot': 'DTensordot', 'Astype': 'DAstype', 'Cast': 'DCast', 'Inplace': 'DInplace', 'Aug': 'DAug', 'Setitem': 'DSetitem',
         'Choice': 'DChoice', 'Let': 'DLet', 'Loop': 'DLoop'}
 
 
@@ -1113,6 +1113,8 @@ class Interp:
                 return V(OPAQUE, 'A')
             if a in ('requires_grad', 'is_leaf', 'training'):
                 return V(PYBOOL, 'A')
+            if a == '_grad' and getattr(fr, 'in_closure', False):
+                return V(('Like', b.e), 'A')      # the operand's buffer: zeros_like(data) (zero_), same dtype
             if a == 'grad':
                 if not getattr(fr, 'in_closure', False) or fr.grad is None:
                     self.U(fr, n, ".grad outside a backward closure")
@@ -1300,6 +1302,8 @@ class Interp:
             for k, v in kws.items():
                 if k not in skip:
                     self.ev(v, env, fr)
+        if name in DTYPE_CONST and len(n.args) == 1 and not kws:
+            return V(('Cast', arg(0).e, NPC(DTYPE_CONST[name])), 'A')
         if name in self.NP_FLOATFN and len(n.args) == 1 and not kws:
             return V(('FloatFn', arg(0).e), 'A')
         if name == 'abs' and len(n.args) == 1 and not kws:
